@@ -62,7 +62,12 @@ func c19(r *core.Run) {
 		for _, b := range h.Blocks {
 			for _, in := range b.Instrs {
 				if s, ok := in.(*ssa.Select); ok {
-					sel, wf = s, h
+					// the wait loop's select: blocking, on the timer and the inbox, and on a cycle; a
+					// second (polling) select elsewhere does not move the anchor
+					better := sel == nil || (s.Blocking && len(s.States) >= 2 && core.Reaches(s, s) && !(sel.Blocking && len(sel.States) >= 2 && core.Reaches(sel, sel)))
+					if better {
+						sel, wf = s, h
+					}
 				}
 			}
 		}
@@ -415,6 +420,51 @@ func c19(r *core.Run) {
 					}
 				}
 			}
+		}
+	}
+	// ... and no message reaches ParseResponse unclassified: on every path from a receive (any
+	// select of the wait function) to a ParseResponse call a branch tests the message's data
+	{
+		testsData := func(b *ssa.BasicBlock) bool {
+			if len(b.Instrs) == 0 {
+				return false
+			}
+			iff, ok := b.Instrs[len(b.Instrs)-1].(*ssa.If)
+			return ok && c19TestsMsgData(iff.Cond, 0)
+		}
+		unclassified := ""
+		nParse := 0
+		for _, c := range core.Calls(wf) {
+			cal := c.Common().StaticCallee()
+			if cal == nil || cal.Name() != "ParseResponse" || cal.Pkg != wf.Pkg {
+				continue
+			}
+			nParse++
+			for _, b := range wf.Blocks {
+				for _, in := range b.Instrs {
+					s2, ok := in.(*ssa.Select)
+					if !ok {
+						continue
+					}
+					recvs := false
+					for _, st := range s2.States {
+						if st.Dir == types.RecvOnly && strings.HasSuffix(core.TypeName(st.Chan.Type()), ".Msg") {
+							recvs = true
+						}
+					}
+					if !recvs {
+						continue
+					}
+					for _, sc := range s2.Block().Succs {
+						if reachAvoiding(sc, c.Block(), testsData, nil) && !testsData(s2.Block()) {
+							unclassified = p.InstrPos(s2)
+						}
+					}
+				}
+			}
+		}
+		if nParse > 0 {
+			r.Check(unclassified == "", "T1", fname, "message-classified-before-it-is-parsed", p.InstrPos(sel), "every path from a receive on the inbox to ParseResponse tests the message's data first", "a message received by the select at "+unclassified+" reaches ParseResponse without any test of its data: a pre-response (timeout:\"<ms>\") taken there is parsed and returned as if it were the response - SendRequest returns an internal error instead of waiting for the response within the extended deadline")
 		}
 	}
 	r.Check(parseOK, "T1", fname, "response-arm-returns-ParseResponse(msg.Data)", p.InstrPos(sel), "a real response is parsed and returned", "no return of ParseResponse(msg.Data)")
@@ -980,4 +1030,48 @@ func c19InboxOpen(r *core.Run, rule string, fn *ssa.Function, subCall ssa.CallIn
 		}
 		r.Check(subV != nil && len(other) == 0, rule, fname, "subscription-used-only-by-the-release", p.InstrPos(subCall), "nothing but the (deferred) Unsubscribe touches the inbox subscription: it stays active across pre-responses until SendRequest returns", "the inbox subscription is also used by "+strings.Join(other, ", ")+": ending or limiting the interest early (AutoUnsubscribe, Drain, an early Unsubscribe) drops the real response that follows a pre-response")
 	}
+}
+
+// c19TestsMsgData: the condition depends on the Data member of a message
+// (its length, one of its bytes, or a helper of the package handed it).
+func c19TestsMsgData(v ssa.Value, d int) bool {
+	if d > 6 || v == nil {
+		return false
+	}
+	if f, ok := core.LoadedField(v); ok && f.Name == "Data" {
+		return true
+	}
+	switch x := v.(type) {
+	case *ssa.BinOp:
+		return c19TestsMsgData(x.X, d+1) || c19TestsMsgData(x.Y, d+1)
+	case *ssa.UnOp:
+		return c19TestsMsgData(x.X, d+1)
+	case *ssa.Convert:
+		return c19TestsMsgData(x.X, d+1)
+	case *ssa.ChangeType:
+		return c19TestsMsgData(x.X, d+1)
+	case *ssa.Index:
+		return c19TestsMsgData(x.X, d+1)
+	case *ssa.IndexAddr:
+		return c19TestsMsgData(x.X, d+1)
+	case *ssa.Lookup:
+		return c19TestsMsgData(x.X, d+1)
+	case *ssa.Slice:
+		return c19TestsMsgData(x.X, d+1)
+	case *ssa.Extract:
+		return c19TestsMsgData(x.Tuple, d+1)
+	case *ssa.Phi:
+		for _, e := range x.Edges {
+			if c19TestsMsgData(e, d+1) {
+				return true
+			}
+		}
+	case *ssa.Call:
+		for _, a := range x.Call.Args {
+			if c19TestsMsgData(a, d+1) {
+				return true
+			}
+		}
+	}
+	return false
 }
